@@ -103,7 +103,9 @@ class Parser:
         context._sheets_size = excel.get_sheets_size()
 
         if self._entrypoint_cell:
-            CellTranslator.translate(copy(self._entrypoint_cell), excel, context)
+            # the entry cell is read from the workbook being translated, whatever value the caller's object carries
+            # (a cell handed out by an Executor holds its computed value and counts as already looked up)
+            CellTranslator.translate(excel.fill_cell(copy(self._entrypoint_cell)), excel, context)
         else:
             CellTranslator.translate_file(excel, context)
 
